@@ -59,4 +59,62 @@ def read (w : World) (c : Config) (src : Source) (fuel : Nat) : ReadOut :=
       let r := readCore w c (some path) content fuel
       { r with events := [.fopen path true] ++ r.events ++ [.fclose path] }
 
+/-! ### Resource ledger over the I/O events of a read (properties C10/C11)
+
+Pure additions: nothing above refers to these definitions.  `ledger` replays an event list
+(`IOEvent`, Scanner.lean): which streams the library currently holds open and how many
+flex buffers it has created for included files and not yet deleted. -/
+/-- State of the ledger.
+* `opened` – paths of the streams opened by `fopen` and not yet closed, most recent
+  first (a multiset: the same path may be open several times);
+* `bufs`   – buffers created by `yy_create_buffer` for included files and not yet
+  deleted (the top-level buffer, created by `__config_read` and deleted by
+  `yylex_destroy`, is outside the event list);
+* `stray`  – `fclose` events naming a path that is not open at that moment;
+* `under`  – `yy_delete_buffer` events with no live include buffer. -/
+structure Ledger where
+  opened : List Bytes := []
+  bufs : Nat := 0
+  stray : List Bytes := []
+  under : Nat := 0
+deriving Repr, Inhabited, DecidableEq
+
+def Ledger.step (L : Ledger) : IOEvent → Ledger
+  | .fopen p true => { L with opened := p :: L.opened }
+  | .fopen _ false => L
+  | .fclose p =>
+    if p ∈ L.opened then { L with opened := L.opened.erase p }
+    else { L with stray := L.stray ++ [p] }
+  | .newBuf => { L with bufs := L.bufs + 1 }
+  | .delBuf =>
+    match L.bufs with
+    | 0 => { L with under := L.under + 1 }
+    | n + 1 => { L with bufs := n }
+
+def Ledger.run (L : Ledger) (es : List IOEvent) : Ledger := es.foldl Ledger.step L
+
+/-- the ledger of an event list, from nothing open -/
+def ledger (es : List IOEvent) : Ledger := Ledger.run {} es
+
+/-- nothing open, no live include buffer, no buffer deleted twice -/
+def Ledger.balanced (L : Ledger) : Bool := L.opened.isEmpty && L.bufs == 0 && L.under == 0
+
+/-- the path an event names -/
+def IOEvent.path : IOEvent → Option Bytes
+  | .fopen p _ => some p
+  | .fclose p => some p
+  | .newBuf => none
+  | .delBuf => none
+
+/-- The current files of the frames on the include stack whose stream is open: the
+file `files[cur]` of every frame for which that entry exists and can be opened in `w`
+(a frame whose current file could not be opened has `current_stream == NULL`). -/
+def openOf (w : World) : List Frame → List Bytes
+  | [] => []
+  | f :: fs =>
+    (match f.files[f.cur]? with
+     | some p => if (w.open? p).isSome then [p] else []
+     | none => []) ++ openOf w fs
+
+
 end Libconfig
